@@ -78,6 +78,7 @@ type Tr struct {
 	c   *Ctx
 
 	vals        map[ssa.Value]*Val
+	rangeDom0   map[*ssa.Range]Term // domain of the map at the start of a range loop over it
 	reach       map[*ssa.BasicBlock]Term
 	outSt       map[*ssa.BasicBlock]*State
 	edgeCond    map[[2]int]Term
@@ -752,6 +753,16 @@ func (t *Tr) loopMods(li *loopInfo) {
 		}
 	}
 	li.mods[compAlloc] = true
+	// the visited set of a map range loop changes with every key it produces
+	for b := range li.body {
+		for _, in := range b.Instrs {
+			if nx, ok := in.(*ssa.Next); ok && !nx.IsString {
+				if rng, ok := nx.Iter.(*ssa.Range); ok {
+					li.mods[compVisited(t.fn, rng)] = true
+				}
+			}
+		}
+	}
 	// ghost variables assigned by this function's ghost statements, or by contracts of callees
 	for _, pt := range []string{"after", "before"} {
 		for _, gs := range t.ghostAt[pt] {
